@@ -196,5 +196,24 @@ CHECKS = {
           "values, SOAP headers are not schema-validated under validator=lxml.",
   'technique': 'Coq proof (typing judgement, induction on fuel) over Gallina models of the XML and dict deserialisers + fail-closed ast translators (xsitype, dictleaf) + vm_compute correspondence + isinstance/value-space oracle with an exhaustive xsi:type retag battery',
  },
+ 'C16': {
+  'text': "For every class hierarchy and every protocol, a subclass carries its ancestors' members followed by its own. With "
+          "polymorphic=True an instance of a subclass standing where its base is declared is written with all of its members "
+          "and a type marker - xsi:type in XML/SOAP, the class-name wrapper key in JSON/YAML/MessagePack - that resolves in the "
+          "transmitted document, and the receiver rebuilds an instance of the same subclass with equal members at every depth; "
+          "a marker naming an unknown class or a class that is not a subclass is refused. With polymorphic=False exactly the "
+          "declared class's projection is written and read back.",
+  'design_ref': 'DESIGN.md section 6 (C16)',
+  'note': TB + "Proved over a model of get_flat_type_info (odict rule), the metaclass's __extends__ rule, "
+          "get_polymorphic_target, Interface.add_class, XmlDocument.to_parent/from_element with namespace scopes, and "
+          "HierDictDocument with wrapper keys, parameterised by 11 source facts and the decision function of "
+          "XmlDocument._get_xsi_target, all regenerated from the AST on every run (c16shape; obligation C16_xsi_target_src). "
+          "Preconditions, all decidable and evaluated on every generated program and oracle value: well-formed universe, "
+          "element members only, distinct {ns}name keys, registered runtime classes, validator None. Three C16 fix commits plus "
+          "C04's xsi:type guard. Finding: a subclass of a member-less root class is not substitutable in any protocol "
+          "(C16_extends_refuted / C16_extends_partial). XmlAttribute/XmlData, sub_name/sub_ns, polymap, mixins, "
+          "complex_as=list are not modelled.",
+  'technique': 'Coq proof (17 theorems) over a Gallina model of inheritance + polymorphic codecs + fail-closed ast translator (c16shape incl. _get_xsi_target) + correspondences (class statements, registry, XML trees with marker resolution, decoders on mutated documents) + loopback oracle over six protocols',
+ },
 }
 NOT_APPLICABLE = {}
